@@ -296,6 +296,49 @@ def main(argv):
             okc, rows, clog = run_cases(outdir)
             if not okc:
                 corr_broken = "model replay (coqc) failed:\n" + clog
+    # additional harnesses of the same property (their case ids are shifted)
+    for extra in ([] if a.replay else cfg.get("extra_harnesses", [])):
+        name, off = extra["harness"], int(extra.get("id_offset", 1000000))
+        xdir = os.path.join(outdir, name)
+        os.makedirs(xdir, exist_ok=True)
+        xbin = os.path.join(WORK, "bin", name + suffix)
+        with Lock("gobuild-" + name + suffix):
+            rc, out = sh(["go", "build"] + mf + ["-tags", "verif", "-o", xbin, "./cmd/" + name], cwd=HARNESS, env=GOENV, timeout=1200)
+        if rc != 0:
+            corr_broken = (corr_broken or "") + "harness %s does not build:\n%s" % (name, out[-2000:])
+            continue
+        rc, out = sh([xbin] + extra.get("args", []) + ["-seed", str(a.seed), "-tier", a.tier, "-out", xdir], cwd=HARNESS, env=GOENV,
+                     timeout=extra.get("timeout", 900) * (6 if a.tier == "thorough" else 1))
+        xrp = os.path.join(xdir, "report.json")
+        if rc != 0 or not os.path.exists(xrp):
+            corr_broken = (corr_broken or "") + "harness %s run failed (rc=%d):\n%s" % (name, rc, out[-2000:])
+            continue
+        xrep = json.load(open(xrp))
+        okc, xrows, clog = run_cases(xdir)
+        if not okc:
+            corr_broken = (corr_broken or "") + "model replay of %s failed:\n%s" % (name, clog)
+        rows += [(cid + off if kind < 3 else cid, kind, step, tag) for (cid, kind, step, tag) in xrows]
+        if report is None:
+            report = {"evaluations": 0, "distinct_nontrivial": 0, "rule": "", "samples": [], "histogram": {}, "cases": {}, "impl_failures": []}
+        report["evaluations"] = report.get("evaluations", 0) + xrep.get("evaluations", 0)
+        report["distinct_nontrivial"] = report.get("distinct_nontrivial", 0) + xrep.get("distinct_nontrivial", 0)
+        report["rule"] = (report.get("rule") or "") + " || [" + name + "] " + (xrep.get("rule") or "")
+        report["samples"] = (report.get("samples") or []) + (xrep.get("samples") or [])[:1]
+        for k, v in (xrep.get("histogram") or {}).items():
+            report.setdefault("histogram", {})[name + ":" + k] = v
+        for k, v in (xrep.get("cases") or {}).items():
+            try:
+                report.setdefault("cases", {})[str(int(k) + off)] = v
+            except ValueError:
+                report.setdefault("cases", {})[name + ":" + k] = v
+        for f in (xrep.get("impl_failures") or []):
+            f = dict(f)
+            try:
+                f["case"] = str(int(f["case"]) + off)
+            except ValueError:
+                f["case"] = name + ":" + str(f["case"])
+            report.setdefault("impl_failures", [])
+            report["impl_failures"] = (report.get("impl_failures") or []) + [f]
 
     # 5. classification
     known = [k for k in load_known() if k["property"] == prop]
